@@ -462,6 +462,15 @@ class Parser:
                     if x[0] == 'op' and x[1] in ('(', '[', '{'): d += 1
                     if x[0] == 'op' and x[1] in (')', ']', '}'): d -= 1
                     if d: raw.append((x[0], x[1]))
+                if path == ['matches']:
+                    # `matches!(expr, pattern)`
+                    try:
+                        sub = Parser(list(raw) + [('eof', '')])
+                        scrut = sub.expr(); sub.eat('op', ','); pat = sub.pattern()
+                        if sub.atop(','): sub.next()
+                        if sub.at('eof'): return ('matchesm', scrut, pat)
+                    except Unsupported:
+                        pass
                 if path == ['write']:
                     # `write!(f, "<fmt>")` / `write!(f, "<fmt>", e1, …)`: the formatter, the format string and the parsed arguments
                     try:
